@@ -1152,3 +1152,36 @@ def is_zero_nf(t, limit=400000):
             ORACLE[0] = saved
     except ExpandLimit:
         return None
+
+
+def const_value_nf(t, limit=30000):
+    """If the term is identically a rational constant (as a rational function of its
+    generators, wherever its denominators are nonzero) return that Fraction, else None."""
+    if t.op == "c":
+        return t.a
+    if size(t) > 6000:
+        return None
+    try:
+        saved = ORACLE[0]
+        ORACLE[0] = None
+        try:
+            num, den = numden(t)
+            ex = Expander(limit)
+            pn = ex.expand(num)
+            if not pn:
+                return Fraction(0)
+            pd = ex.expand(_den_term(den))
+        finally:
+            ORACLE[0] = saved
+        if len(pn) != len(pd):
+            return None
+        m0 = next(iter(pd))
+        if m0 not in pn:
+            return None
+        c = pn[m0] / pd[m0]
+        for m, v in pd.items():
+            if pn.get(m) != c * v:
+                return None
+        return c
+    except ExpandLimit:
+        return None
